@@ -5,6 +5,7 @@ import (
 	"fmt"
 	"io"
 	"os"
+	"strings"
 
 	"github.com/antlr4-go/antlr/v4"
 
@@ -57,17 +58,38 @@ func FromReader(reader io.Reader) (dialogue *Dialogue, err error) {
 
 	input := antlr.NewInputStream(string(scriptData))
 	var (
-		lexer    = parser.NewYarnSpinnerLexer(input)
-		stream   = antlr.NewCommonTokenStream(lexer, antlr.LexerDefaultTokenChannel)
-		p        = parser.NewYarnSpinnerParser(stream)
-		listener = &parserListener{}
+		syntaxErrors = &syntaxErrorListener{}
+		lexer        = parser.NewYarnSpinnerLexer(input)
+		stream       = antlr.NewCommonTokenStream(lexer, antlr.LexerDefaultTokenChannel)
+		p            = parser.NewYarnSpinnerParser(stream)
+		listener     = &parserListener{}
 	)
+	lexer.RemoveErrorListeners()
+	lexer.AddErrorListener(syntaxErrors)
+	p.RemoveErrorListeners()
+	p.AddErrorListener(syntaxErrors)
 
-	antlr.ParseTreeWalkerDefault.Walk(listener, p.Dialogue())
+	tree := p.Dialogue()
+	if len(syntaxErrors.messages) != 0 {
+		return nil, fmt.Errorf("script has syntax errors: %s", strings.Join(syntaxErrors.messages, "; "))
+	}
+
+	antlr.ParseTreeWalkerDefault.Walk(listener, tree)
 
 	if listener.dialogue == nil || len(listener.dialogue.Nodes) == 0 {
 		return nil, errors.New("script does not contain any node")
 	}
 
 	return listener.dialogue, nil
+}
+
+// syntaxErrorListener collects the syntax errors reported by the lexer and the parser.
+type syntaxErrorListener struct {
+	*antlr.DefaultErrorListener
+	messages []string
+}
+
+// SyntaxError is called by the lexer and the parser for each syntax error they encounter.
+func (l *syntaxErrorListener) SyntaxError(_ antlr.Recognizer, _ interface{}, line, column int, msg string, _ antlr.RecognitionException) {
+	l.messages = append(l.messages, fmt.Sprintf("line %d:%d %s", line, column, msg))
 }
